@@ -173,6 +173,45 @@ func scFile(repo, rel string, fieldList []string) []scCall {
 	return calls
 }
 
+// scFieldKind finds the declaration `<field> *cache.Cache[…]` / `<field> *coapSync.Map[…]` of a tracked field in a file.
+func scFieldKind(repo, rel, field string) string {
+	_, f := parseFile(repo, rel)
+	kind := ""
+	ast.Inspect(f, func(n ast.Node) bool {
+		st, ok := n.(*ast.StructType)
+		if !ok {
+			return true
+		}
+		for _, fl := range st.Fields.List {
+			for _, nm := range fl.Names {
+				if nm.Name != field {
+					continue
+				}
+				t := fl.Type
+				if se, ok := t.(*ast.StarExpr); ok {
+					t = se.X
+				}
+				switch x := t.(type) {
+				case *ast.IndexExpr:
+					t = x.X
+				case *ast.IndexListExpr:
+					t = x.X
+				}
+				if sel, ok := t.(*ast.SelectorExpr); ok {
+					switch {
+					case identName(sel.X) == "cache" && sel.Sel.Name == "Cache":
+						kind = "cache"
+					case sel.Sel.Name == "Map", sel.Sel.Name == "RequestsMap": // udp/client.RequestsMap = coapSync.Map[uint64, *pool.Message]
+						kind = "map"
+					}
+				}
+			}
+		}
+		return true
+	})
+	return kind
+}
+
 func genSyncCallSites(g *gen, repo string) {
 	var b strings.Builder
 	b.WriteString(`namespace CoapVerif.Generated.SyncCallSites
@@ -202,6 +241,34 @@ structure Call where
 				q(sf.rel), q(c.fn), q(c.field), q(c.method), c.deferred, natList(c.inside, q), natList(c.afterOnResult, q))
 		}
 	}
-	b.WriteString("\n]\n\nend CoapVerif.Generated.SyncCallSites\n")
+	b.WriteString("\n]\n\n")
+	// which of the fields are expiring caches (cache.Cache embeds the plain Map: the Map's own methods called on a cache
+	// value know nothing about expiry) and which are plain maps
+	b.WriteString("/-- (file of the declaration, field, `cache` = cache.Cache / `map` = sync.Map) -/\ndef fieldKinds : List (String × String × String) := [\n")
+	firstK := true
+	seen := map[string]bool{}
+	for _, sf := range scFiles {
+		for _, fld := range sf.fields {
+			k := scFieldKind(repo, sf.rel, fld)
+			if k == "" {
+				continue
+			}
+			seen[fld] = true
+			if !firstK {
+				b.WriteString(",\n")
+			}
+			firstK = false
+			fmt.Fprintf(&b, "  (%s, %s, %s)", q(sf.rel), q(fld), q(k))
+		}
+	}
+	b.WriteString("\n]\n")
+	for _, sf := range scFiles {
+		for _, fld := range sf.fields {
+			if !seen[fld] {
+				fail("SyncCallSites: declaration of field %s not found (type unknown)", fld)
+			}
+		}
+	}
+	b.WriteString("\nend CoapVerif.Generated.SyncCallSites\n")
 	g.write("SyncCallSites.lean", b.String())
 }
